@@ -6,6 +6,7 @@ mod probe3;
 mod probe4;
 mod probe5;
 mod probe6;
+mod probe7;
 use cosmwasm_std::{coin, Coin, Decimal, Uint128};
 use cw_multi_test::Executor;
 use mantra_dex_std::farm_manager as fm;
@@ -280,6 +281,7 @@ fn main() {
     if which.iter().any(|w| w == "c18") { probe6::c18(); }
     if which.iter().any(|w| w == "c16") { probe6::c16(); }
     if which.iter().any(|w| w == "c09") { probe6::c09(); }
+    if which.iter().any(|w| w == "fbfs") { let d: usize = which.iter().filter_map(|x| x.parse().ok()).next().unwrap_or(3); probe7::run(d); }
     if which.iter().any(|w| w == "partest") { probe4::partest(); }
     if which.iter().any(|w| w == "bfs") { let d: usize = which.iter().filter_map(|x| x.parse().ok()).next().unwrap_or(3); probe4::run(d); }
     let _ = Uint128::zero();
